@@ -101,7 +101,7 @@ set_option maxRecDepth 100000 in
 /-- every extracted read/write site of a field of `Client`, `LLRPDevice`, `Driver` conforms to the policy of its
 field, except the individually argued `RacePolicy.exceptions` (which the check reports as known findings) -/
 theorem sites_conform :
-    ∀ a ∈ Gen.accesses, RacePolicy.siteOf a ∉ RacePolicy.exceptions → RacePolicy.conforms RacePolicy.table a = true := by
+    ∀ a ∈ Gen.accesses, RacePolicy.isException a = false → RacePolicy.conforms RacePolicy.table a = true := by
   decide
 
 set_option maxRecDepth 100000 in
@@ -111,8 +111,9 @@ theorem calls_conform : ∀ c ∈ Gen.raceCalls, RacePolicy.callConforms c = tru
   decide
 
 set_option maxRecDepth 100000 in
-/-- every listed exception is a real site of the current source (a stale exception is an error) -/
-theorem exceptions_are_sites : ∀ s ∈ RacePolicy.exceptions, s ∈ Gen.accesses.map RacePolicy.siteOf := by
+/-- every listed exception is exactly one site of the current source (a stale exception, or one that has come to cover
+several sites, is an error) -/
+theorem exceptions_are_sites : ∀ e ∈ RacePolicy.exceptions, (Gen.accesses.filter (RacePolicy.matchesExc e)).length = 1 := by
   decide
 
 set_option maxRecDepth 100000 in
